@@ -412,3 +412,68 @@ def write_sparse_bigblock(path, big=1610612736, prefix=13):
         tr += bytes(TRAILER - 4 - len(tr)) + struct.pack("<I", MAGIC_V2)
         f.write(tr)
     return ents, restarts
+
+
+def _sparse_block(ents):
+    """-> (segments of the block contents with a restart at every entry, contents length)"""
+    segs, restarts, pos = [], [], 0
+    for k, v in ents:
+        vlen = v if isinstance(v, int) else len(v)
+        hdr = varint_enc(0) + varint_enc(len(k)) + varint_enc(vlen) + k
+        restarts.append(pos)
+        segs += [hdr, v]
+        pos += len(hdr) + vlen
+    wide = pos > 0xFFFFFFFF
+    tail = b"".join(struct.pack("<Q" if wide else "<I", r) for r in restarts) + struct.pack("<I", len(restarts))
+    segs.append(tail)
+    return segs, pos + len(tail)
+
+
+def framed_size(ents):
+    segs, clen = _sparse_block(ents)
+    return len(varint_enc(clen)) + 4 + clen
+
+
+def write_sparse_table(path, blocks, prefix=13):
+    """A well-formed uncompressed v2 file from blocks = [[(key, value)]], a value being bytes or an integer n (n zero bytes,
+    left as a hole of the sparse file); restart point at every entry. Returns the block offsets."""
+    offs, idx = [], []
+    nent = bk = bv = 0
+    with open(path, "wb") as f:
+        f.write(bytes([0x5A]) * prefix)
+        for ents in blocks:
+            segs, clen = _sparse_block(ents)
+            offs.append(f.tell())
+            f.write(varint_enc(clen) + struct.pack("<I", crc32c_segments(segs)))
+            for s in segs:
+                if isinstance(s, int):
+                    f.seek(s, 1)
+                else:
+                    f.write(s)
+            idx.append((ents[-1][0], varint_enc(offs[-1])))
+            for k, v in ents:
+                nent += 1
+                bk += len(k)
+                bv += v if isinstance(v, int) else len(v)
+        ioff = f.tell()
+        ic = encode_block_contents(idx, set(range(0, len(idx), 16)) or {0})
+        f.write(varint_enc(len(ic)) + struct.pack("<I", crc32c(ic)) + ic)
+        end = f.tell()
+        tr = struct.pack("<9Q", ioff, 8192, 0, nent, len(blocks), ioff - prefix, end - ioff, bk, bv)
+        tr += bytes(TRAILER - 4 - len(tr)) + struct.pack("<I", MAGIC_V2)
+        f.write(tr)
+    return offs
+
+
+def blocks_2pow32_apart():
+    """blocks for write_sparse_table: a small block L, three blocks holding one huge zero value each, a small block H, sized so that
+    H starts exactly 2^32 bytes after L (block offsets equal modulo 2^32)"""
+    L = [(("k%02d" % i).encode(), bytes([0x41 + i]) * 20) for i in range(6)]
+    H = [(("x%02d" % i).encode(), bytes([0x61 + i]) * 20) for i in range(6)]
+    n = 1431655765
+    M1, M2 = [(b"m1", n)], [(b"m2", n)]
+    rest = (1 << 32) - framed_size(L) - framed_size(M1) - framed_size(M2)
+    n3 = rest - framed_size([(b"m3", 1 << 30)]) + (1 << 30)
+    M3 = [(b"m3", n3)]
+    assert framed_size(L) + framed_size(M1) + framed_size(M2) + framed_size(M3) == 1 << 32 and n3 < (1 << 31)
+    return [L, M1, M2, M3, H]
